@@ -193,6 +193,13 @@ impl Remover {
                 let end_cursor = child_markers.len()
                     - Self::merge_child_markers(child_markers.iter().rev(), &mut end_marker);
 
+                if end_cursor < start_cursor {
+                    // A child marker was merged into both halves, so the halves overlap:
+                    // remove them as a single range.
+                    acc.push((marker.start..end_marker.end.max(marker.end), None));
+                    return acc;
+                }
+
                 let current = acc.len();
                 acc.push((
                     marker,
